@@ -19,7 +19,7 @@ func init() {
 		Explanation: "Language equality is not decidable by inspection of a hand-written recursive descent and is NOT decided (no grammar extraction is attempted). Decided are necessary conditions, each of which had a concrete accepted-but-illegal or mis-built input: " +
 			"(PAIR-token) no token is consumed unchecked: every comparison of a token's text with a keyword happens with the token kind NAME established (or only rejects), every direct advance() is made with the current token's kind established, functions that advance at entry export that requirement to their callers, and no `fallthrough` leads into an arm that consumes; " +
 			"(FLOW-nil) no production returns (nil, nil) except the optional parseDescription; " +
-			"(LIT-ast) every node literal the parser builds sets every field of its struct other than Kind (tabled optional fields aside), required child fields can never receive nil, Loc is loc(parser, start) with start read from the current token before the production's first consuming call, and the literal's field order follows the struct declaration; " +
+			"(LIT-ast) every node literal the parser builds sets every field of its struct other than Kind (tabled optional fields aside), required child fields can never receive nil, Loc is loc(parser, start) with start read from the current token before the production's first consuming call, and the children are parsed in the order the visitor's child table (QueryDocumentKeys) lists them; " +
 			"(FLOW-err) no error result of a parser/lexer function is dropped; " +
 			"(EXH-tokens) every TokenKind has a description, a producing makeToken site and a consuming parser site, every keyword constant is a key of tokenDefinitionFn; " +
 			"(FLOW-src) parsing never writes the source: no store into, and no append onto a sub-slice of, Source.Body in lexer / parser / gqlerrors / location; " +
@@ -343,6 +343,7 @@ func c03Lit(c *core.Ctx, r *core.Reporter) {
 	p := c.Pkg("language/parser")
 	info := p.TypesInfo
 	per := map[string]int{}
+	childKeys, _, _ := keyTable(c)
 	c.FuncDecls(func(rel string, pp *packagesPkg, fd *ast.FuncDecl) {
 		if rel != "language/parser" {
 			return
@@ -386,6 +387,27 @@ func c03Lit(c *core.Ctx, r *core.Reporter) {
 			if le, ok := set["Loc"].(*ast.CallExpr); ok {
 				if f := core.CalleeObj(info, le); f != nil && f.Name() == "loc" && len(le.Args) == 2 {
 					locOK = startFromEntryToken(info, fd, le.Args[1])
+				}
+			}
+			// the children listed in QueryDocumentKeys[kind] are obtained (parsed) in that order
+			if keys := childKeys[tn]; len(keys) > 1 && len(miss) == 0 {
+				last := token.NoPos
+				okOrder := true
+				n := 0
+				for _, k := range keys {
+					pos := producedAt(info, fd, set[k])
+					if pos == token.NoPos {
+						continue
+					}
+					n++
+					if pos < last {
+						okOrder = false
+					}
+					last = pos
+				}
+				if n > 1 {
+					r.Check(okOrder, key+"/child-order", cl.Pos(), "children are parsed in the order the visitor's child table lists them (document order)",
+						fmt.Sprintf("the children of ast.%s are parsed in a different order than QueryDocumentKeys lists them: the visitor does not traverse this node's children in document order", tn))
 				}
 			}
 			switch {
@@ -709,4 +731,37 @@ func usedAsValue(info *types.Info, p *packagesPkg, fd *ast.FuncDecl) bool {
 		})
 	}
 	return used
+}
+
+// producedAt: source position of the parse call whose result becomes expression e (a call, or a
+// variable assigned from a call somewhere in the function; the first such assignment counts).
+func producedAt(info *types.Info, fd *ast.FuncDecl, e ast.Expr) token.Pos {
+	if e == nil {
+		return token.NoPos
+	}
+	if call, ok := e.(*ast.CallExpr); ok {
+		return call.Pos()
+	}
+	o := core.ObjOf(info, e)
+	if o == nil {
+		return token.NoPos
+	}
+	pos := token.NoPos
+	ast.Inspect(fd.Body, func(x ast.Node) bool {
+		as, ok := x.(*ast.AssignStmt)
+		if !ok || len(as.Rhs) != 1 {
+			return true
+		}
+		call, ok := as.Rhs[0].(*ast.CallExpr)
+		if !ok {
+			return true
+		}
+		for _, l := range as.Lhs {
+			if core.ObjOf(info, l) == o && (pos == token.NoPos || call.Pos() < pos) {
+				pos = call.Pos()
+			}
+		}
+		return true
+	})
+	return pos
 }
